@@ -5,6 +5,7 @@ import (
 	"crypto/tls"
 	"encoding/binary"
 	"fmt"
+	"net"
 	"sync/atomic"
 	"time"
 
@@ -134,6 +135,7 @@ func c08QUIC(c *c08Ctx) {
 		scf()
 		c.r.NonTrivial("quic/" + kind)
 	}
+	c08QUICHostileServer(c, srv, ctx, g)
 	// liveness: an honest quicswarm client must still be served
 	cl, err := quicswarm.NewOnUDP("127.0.0.1:0", keyN(182).Priv)
 	if err != nil {
@@ -155,4 +157,81 @@ func c08QUIC(c *c08Ctx) {
 		c.r.NonTrivial("layer/quicswarm/survived-and-serving")
 	}
 	c.r.Count("quic_hostile_streams", int64(n))
+}
+
+// c08QUICHostileServer: the node under test asks a raw quic-go server (honest TLS identity) that answers with hostile response
+// frames: longer than the asker's buffer, longer than the MTU, length without body, nothing, reset.
+func c08QUICHostileServer(c *c08Ctx, node *quicswarm.Swarm[udpswarm.Addr], ctx context.Context, g *rng.R) {
+	key := keyN(183)
+	cert := swarmutil.GenerateSelfSigned(key.Std)
+	ln, err := quic.ListenAddr("127.0.0.1:0", &tls.Config{Certificates: []tls.Certificate{cert}, NextProtos: []string{"p2p"}, ClientAuth: tls.RequireAnyClientCert, InsecureSkipVerify: true}, &quic.Config{EnableDatagrams: true})
+	if err != nil {
+		c.r.Count("quic_hostile_server_listen_failed", 1)
+		return
+	}
+	defer ln.Close()
+	lctx, lcf := context.WithCancel(ctx)
+	defer lcf()
+	var kind atomic.Value
+	kind.Store("valid")
+	frame := func(l uint32, body []byte) []byte {
+		b := make([]byte, 4, 4+len(body))
+		binary.BigEndian.PutUint32(b, l)
+		return append(b, body...)
+	}
+	go func() {
+		for {
+			conn, err := ln.Accept(lctx)
+			if err != nil {
+				return
+			}
+			go func() {
+				for {
+					s, err := conn.AcceptStream(lctx)
+					if err != nil {
+						return
+					}
+					go func() {
+						buf := make([]byte, 4096)
+						s.Read(buf)
+						switch kind.Load().(string) {
+						case "resp>buffer":
+							s.Write(frame(100, make([]byte, 100)))
+						case "resp>mtu":
+							s.Write(frame(1<<20+1, make([]byte, 64)))
+						case "resp-length-only":
+							s.Write(frame(50, nil))
+						case "resp-huge-length":
+							s.Write(frame(0xffffffff, make([]byte, 8)))
+						case "resp-half-header":
+							s.Write([]byte{0, 0})
+						case "resp-reset":
+							s.CancelWrite(9)
+							return
+						default:
+							s.Write(frame(4, []byte("pong")))
+						}
+						s.Close()
+					}()
+				}
+			}()
+		}
+	}()
+	port := ln.Addr().(*net.UDPAddr).Port
+	dst, perr := node.ParseAddr([]byte(fmt.Sprintf("%s@127.0.0.1:%d", quicswarm.DefaultFingerprinter(key.Pub).String(), port)))
+	if perr != nil {
+		c.r.Count("quic_hostile_server_addr_failed", 1)
+		return
+	}
+	kinds := []string{"valid", "resp>buffer", "resp>mtu", "resp-length-only", "resp-huge-length", "resp-half-header", "resp-reset", "resp>buffer", "valid"}
+	for i := 0; i < 3*len(kinds); i++ {
+		k := kinds[i%len(kinds)]
+		kind.Store(k)
+		bufLen := rng.Pick(g, []int{0, 4, 16, 64})
+		c.record(fmt.Sprintf("quicswarm/ask-answered-with(%s,asker_buffer=%d)", k, bufLen), nil)
+		actx, acf := context.WithTimeout(ctx, 500*time.Millisecond)
+		node.Ask(actx, make([]byte, bufLen), dst, p2p.IOVec{[]byte("request")})
+		acf()
+		c.r.NonTrivial("quic/hostile-response/" + k)
+	}
 }
